@@ -149,7 +149,8 @@ def run(ctx, model):
     ])
 
     # ---------------- affix words
-    affixes = [["ab"], ["ab", "c.d"], ["x", "(y", "z|"], "solo"]
+    # incl. affixes that contain one another at prefix / suffix / inner positions, and a duplicate
+    affixes = [["ab"], ["ab", "c.d"], ["x", "(y", "z|"], "solo", ["at", "cat"], ["ate", "at"], ["a", "ea", "la"], ["ab", "abc", "cab"], ["q", "q"]]
     for cname, shape in (("WordContains", "W*AW*"), ("WordStartsWith", "AW*"), ("WordEndsWith", "W*A")):
         ci = model.cls(ESS, cname)
         f = ci.methods["__init__"]
